@@ -227,6 +227,8 @@ func LoadReplay(test string) *Replay {
 	if json.Unmarshal(b, &rp) != nil || rp.Test != test {
 		return nil
 	}
+	// tells the driver that the saved case was really taken (tests whose cases are Go values have no JSON replay)
+	fmt.Printf("VERIF-REPLAYED test=%s file=%s\n", test, p)
 	return &rp
 }
 
